@@ -1,7 +1,9 @@
 //! C05 — local time follows the zone data: offsets, gaps and folds.
 //!
-//! Implementation side of the correspondence (ops `tzl.at`, `tzl.loc`, `tzl.cache`) and the direct
-//! oracles on the implementation, which share no code with the model:
+//! Implementation side of the correspondence (ops `tzl.at`, `tzl.loc`, `tzl.cache` incl. the
+//! `earliest()` / `latest()` of `Local.from_local_datetime`; hypothesis evaluators `tzl.sep`,
+//! `tzl.yearly`; the brute-force wall sets `tzl.wall`) and the direct oracles on the implementation,
+//! which share no code with the model:
 //!   O1  offset_at(t) is what the zone data prescribe (table: last transition <= t / first type;
 //!       rule: an independent evaluation with Hinnant's civil-day algorithm)
 //!   O2  round trip: offsets_for_local(t + offset_at(t)) contains offset_at(t)
